@@ -252,6 +252,18 @@ func suiteText(tier string, seed uint64, model string) *Report {
 				}
 				x = append(x, jp.NewUnion(ms...))
 				sp = append(sp, u)
+			} else if c < 48 {
+				// a slice of 0-3 numbers
+				sv := []int{0, 1, -1, 2, 5, -3, 2147483647, 2147483646, -2147483648, math.MaxInt64, math.MinInt64}
+				var sl jp.Slice
+				u := "l"
+				for m := r.Intn(4); m > 0; m-- {
+					v := sv[r.Intn(len(sv))]
+					sl = append(sl, v)
+					u += fmt.Sprintf(",%d", v)
+				}
+				x = append(x, sl)
+				sp = append(sp, u)
 			} else if c < 72 {
 				k := keyPieces[r.Intn(len(keyPieces))]
 				if r.Chance(30) {
@@ -315,7 +327,7 @@ func suiteText(tier string, seed uint64, model string) *Report {
 		ptexts[strings.ReplaceAll(strings.ReplaceAll(t, "[", "[ "), "]", " ]")] = true
 		ptexts[strings.ReplaceAll(t, "['", "[\"")] = true
 	}
-	for _, t := range []string{"$", "$.a", "$[007]", "$[-0]", "$[ 1 ]", "$['a' ]", "$[\"a\"]", "$.a.b[1]", "$.a..b", "$.*", "$[*]", "$*", "$..*", "$..", "$...a", "$....a", "$..[*]", "$[ * ]", "$.a*", "$..['a']", "$..a.b..c", "$.a[", "$[1", "$['a'", "$.", "$[]", "$[-]", "$[1 2]", "$.a b", "$x", "a.b", "@.a", "$[1,2]", "$[1:2]", "$['a','b']", "$[ 1 , 'a' ,2 ]", "$[1,]", "$[,1]", "$['a',]", "$[1 ,2].x", "$[\"a\",\"b\"]", "$[1,'a'", "$[+1]", "$.a['b'].c"} {
+	for _, t := range []string{"$", "$.a", "$[007]", "$[-0]", "$[ 1 ]", "$['a' ]", "$[\"a\"]", "$.a.b[1]", "$.a..b", "$.*", "$[*]", "$*", "$..*", "$..", "$...a", "$....a", "$..[*]", "$[ * ]", "$.a*", "$..['a']", "$..a.b..c", "$.a[", "$[1", "$['a'", "$.", "$[]", "$[-]", "$[1 2]", "$.a b", "$x", "a.b", "@.a", "$[1,2]", "$[1:2]", "$[:]", "$[::]", "$[1:]", "$[:2]", "$[::2]", "$[1::2]", "$[1:2:3]", "$[ 1 : 2 ]", "$[1:2:]", "$[1 :2]", "$[: 2]", "$[-1:-3:-1]", "$[1:2:3:4]", "$[1:a]", "$[:2].a[1:]", "$['a','b']", "$[ 1 , 'a' ,2 ]", "$[1,]", "$[,1]", "$['a',]", "$[1 ,2].x", "$[\"a\",\"b\"]", "$[1,'a'", "$[+1]", "$.a['b'].c"} {
 		ptexts[t] = true
 	}
 	var ptl []string
@@ -361,6 +373,12 @@ func suiteText(tier string, seed uint64, model string) *Report {
 					sp = append(sp, "w"+string([]byte{byte(tf)}))
 				case jp.Descent:
 					sp = append(sp, "d")
+				case jp.Slice:
+					u := "l"
+					for _, v := range tf {
+						u += fmt.Sprintf(",%d", v)
+					}
+					sp = append(sp, u)
 				case jp.Union:
 					u := "u"
 					for _, m := range tf {
